@@ -40,7 +40,7 @@ def gen_case(rng, car):
         if kind in ("npu8", "tu8"): v = abs(v)
         if cplx and kind in ("complex", "t0", "t1") and rng.random() < 0.5:
             v = complex(v, rng.choice([1, -2]))
-        return Op(op, [x, Scal(kind, v)]), "scalar", None
+        return Op(op, [x, Scal(kind, v)]), ("scalar-zero-factor" if v == 0 and op in ("OMul", "ORMul") else "scalar"), None
     if r < 0.735 and not cplx:      # a REAL operand with a scalar of a wider type: complex scalars (python, numpy, 0-d tensor); the result is complex
         x = gen_tt(rng, cplx=False)
         op = rng.choice(["OAdd", "ORAdd", "OSub", "ORSub", "OMul", "ORMul"])
@@ -95,7 +95,7 @@ def gen_case(rng, car):
     return Op("OKron", [x, gen_tt(rng, d=rng.choice([1, 2]), cplx=cplx)]), "kron", None
 
 def nontrivial(e, cat):
-    if cat in ("exhaustive-structure", "bcast", "scalar", "div", "scalar-tiny", "scalar-wide", "scalar-complex-on-real") or cat.startswith("factory"):
+    if cat in ("exhaustive-structure", "bcast", "scalar", "scalar-zero-factor", "div", "scalar-tiny", "scalar-wide", "scalar-complex-on-real") or cat.startswith("factory"):
         return True
     return any(isinstance(a, Lit3) and any(c.shape[2] > 1 for c in a.cores[:-1]) for a in e.args)
 
